@@ -75,14 +75,8 @@ impl InstructionGenerator {
                 self.push(Instruction::Less, pos);
                 self.jump_if_false("test-positive-or-zero", pos);
                 // negative step
-                self.generate_for_loop_instructions_positive_or_negative_step(
-                    &counter_var_name,
-                    statements.clone(),
-                    false,
-                    pos,
-                );
-                // jump out
-                self.jump("out-of-for", pos);
+                self.generate_for_loop_test(&counter_var_name, false, pos);
+                self.jump("for-body", pos);
                 // PositiveOrZero: ?
                 self.label("test-positive-or-zero", pos);
                 // need to load it again into A because the previous "LessThan" op overwrote A
@@ -91,14 +85,18 @@ impl InstructionGenerator {
                 self.push(Instruction::Greater, pos);
                 self.jump_if_false("zero", pos);
                 // positive step
-                self.generate_for_loop_instructions_positive_or_negative_step(
-                    &counter_var_name,
-                    statements,
-                    true,
-                    pos,
-                );
-                // jump out
-                self.jump("out-of-for", pos);
+                self.generate_for_loop_test(&counter_var_name, true, pos);
+                // the loop body is emitted once (emitting it per sign of the step
+                // would define every label inside it twice)
+                self.label("for-body", pos);
+                self.generate_for_loop_body(&counter_var_name, statements, pos);
+                // back to the test that goes with the sign of the step: is step < 0 ?
+                self.push_load(Variant::VInteger(0), pos);
+                self.push(Instruction::CopyAToB, pos);
+                self.push(Instruction::CopyDToA, pos);
+                self.push(Instruction::Less, pos);
+                self.jump_if_false("positive-loop", pos);
+                self.jump("negative-loop", pos);
                 // Zero step
                 self.label("zero", pos);
                 self.push(Instruction::Throw(RuntimeError::ForLoopZeroStep), step_pos);
@@ -108,21 +106,19 @@ impl InstructionGenerator {
                 self.push_load(Variant::VInteger(1), pos);
                 // A to D (step is in D)
                 self.push(Instruction::CopyAToD, pos);
-                self.generate_for_loop_instructions_positive_or_negative_step(
-                    &counter_var_name,
-                    statements,
-                    true,
-                    pos,
-                );
+                self.generate_for_loop_test(&counter_var_name, true, pos);
+                self.generate_for_loop_body(&counter_var_name, statements, pos);
+                // back to loop
+                self.jump("positive-loop", pos);
                 self.label("out-of-for", pos);
             }
         }
     }
 
-    fn generate_for_loop_instructions_positive_or_negative_step(
+    /// The loop point for one sign of the step: leaves the loop when the counter has passed the upper bound.
+    fn generate_for_loop_test(
         &mut self,
         counter_var_name: &Expression,
-        statements: Statements,
         is_positive: bool,
         pos: Position,
     ) {
@@ -143,7 +139,15 @@ impl InstructionGenerator {
             self.push(Instruction::GreaterOrEqual, pos);
         }
         self.jump_if_false("out-of-for", pos);
+    }
 
+    /// The loop body followed by the increment of the counter.
+    fn generate_for_loop_body(
+        &mut self,
+        counter_var_name: &Expression,
+        statements: Statements,
+        pos: Position,
+    ) {
         // push registers
         self.push(Instruction::PushRegisters, pos);
 
@@ -160,9 +164,6 @@ impl InstructionGenerator {
         self.push(Instruction::CopyDToB, pos);
         self.push(Instruction::Plus, pos);
         self.store_counter(counter_var_name, pos);
-
-        // back to loop
-        self.jump(loop_label, pos);
     }
 
     pub fn generate_do_loop_instructions(&mut self, do_loop: DoLoop, pos: Position) {
